@@ -5,7 +5,11 @@ lock.py makes (mkdir, glob, exists, isdir, open, remove, walk, rmdir) first park
 until the scheduler grants it one step, then is performed on a real scratch directory.  Logical processes are
 threads with their own getpid() and environ; exactly one thread runs at a time, so a schedule is a list of
 (pid, choice) and the run is deterministic.  `choice` fixes the (arbitrary) order in which the directory is
-listed: glob results are presented in creation order, newest first, rotated left by choice mod length.
+listed: glob results are presented in creation order, newest first, the entries that have the form of a lock-file
+name rotated left by choice mod their number, the other entries after them.
+
+Every logical process also has its own login name (utils.getUserName is replaced by a function that answers for
+the calling logical process), and the lock directories may hold foreign entries before anybody runs.
 
 Everything here runs inside a forked child (common.in_child): signal.signal and atexit.register are
 neutralised globally there.
@@ -17,6 +21,14 @@ import shutil
 import threading
 
 KIND_NAME = {"E": "exclusive", "S": "shared"}
+DEFAULT_USER = "eups"
+# the form of a lock-file name, as documented in lock.py: <type>-<user>.<pid>
+NAME_RE = re.compile(r"^(exclusive|shared)-(.+)\.(\d+)$")
+
+
+def lock_file_name(p):
+    """the name of the lock file of a process given as a dict of the case"""
+    return "%s-%s.%d" % (KIND_NAME[p["kind"]], p.get("user", DEFAULT_USER), p["pid"])
 TERMINAL = ("done", "failed", "crashed")
 
 
@@ -25,9 +37,10 @@ class _Abort(BaseException):
 
 
 class LProc(object):
-    def __init__(self, world, pid, kind, root, ntry, path=(0,)):
+    def __init__(self, world, pid, kind, root, ntry, path=(0,), user=DEFAULT_USER):
         self.world = world
         self.pid = pid
+        self.user = user
         self.kind = kind
         self.root = root
         self.ntry = ntry
@@ -155,11 +168,13 @@ class _GlobProxy(object):
         base = os.path.basename(pattern)
         me.park(("glob*" if base == "*" else "globx" if base == "exclusive*" else "glob?" + base) + self._w.at(pattern))
         res = real.glob(pattern)
-        res.sort(key=lambda f: -self._w.created.get(f, 0))       # creation order, newest first
-        if res:
-            k = me.choice % len(res)
-            res = res[k:] + res[:k]
-        return res
+        res.sort(key=lambda f: (-self._w.created.get(f, 0), f))  # creation order, newest first
+        good = [f for f in res if NAME_RE.match(os.path.basename(f))]
+        rest = [f for f in res if not NAME_RE.match(os.path.basename(f))]
+        if good:
+            k = me.choice % len(good)
+            good = good[k:] + good[:k]
+        return good + rest
 
 
 class _TimeProxy(object):
@@ -198,7 +213,7 @@ class World(object):
         self.lock.glob = _GlobProxy(self)
         self.lock.time = _TimeProxy()
 
-    def reset(self, procs, nstacks=1):
+    def reset(self, procs, nstacks=1, junk=()):
         self.set_stacks(nstacks)
         for d, ld in zip(self.stacks, self.lockdirs):
             if os.path.isdir(ld):
@@ -210,8 +225,18 @@ class World(object):
         self.seq = 0
         self.created = {}
         self.procs = {}
+        # foreign entries that lie in the lock directories before anybody runs (older than every lock file, in
+        # the order given)
+        for k, names in enumerate(junk):
+            if names and k < len(self.lockdirs):
+                os.mkdir(self.lockdirs[k])
+                for i, nm in enumerate(names):
+                    f = os.path.join(self.lockdirs[k], nm)
+                    open(f, "w").close()
+                    self.created[f] = -i
         for p in procs:
-            lp = LProc(self, p["pid"], p["kind"], p.get("root"), p.get("ntry", 2), p.get("path") or [0])
+            lp = LProc(self, p["pid"], p["kind"], p.get("root"), p.get("ntry", 2), p.get("path") or [0],
+                       p.get("user", DEFAULT_USER))
             self.procs[lp.pid] = lp
         for pid in sorted(self.procs):
             self.procs[pid].thread.start()
@@ -282,16 +307,15 @@ class World(object):
             raise _Abort()
 
     def observe(self):
-        """D or - per stack | lock files per stack (stacks separated by /) | pid:next call (with @k for stack k > 0)"""
+        """D or - per stack | names in the lock directory per stack, percent-encoded and sorted (stacks separated
+        by /) | pid:next call (with @k for stack k > 0)"""
+        import common
         ds, fl = [], []
         for ld in self.lockdirs:
             files = []
             d = os.path.isdir(ld)
             if d:
-                for f in os.listdir(ld):
-                    m = re.match(r"^(exclusive|shared)-(.+)\.(\d+)$", f)
-                    files.append(("E" if m.group(1) == "exclusive" else "S") + m.group(3) if m else "?" + f)
-            files.sort(key=lambda x: (int(x[1:]) if x[1:].isdigit() else -1, x))
+                files = sorted(common.enc(os.fsencode(f)) for f in os.listdir(ld))
             ds.append("D" if d else "-")
             fl.append(",".join(files))
         return "%s|%s|%s" % ("".join(ds), "/".join(fl),
@@ -327,13 +351,14 @@ def run_cases(cases, drain_limit=400):
     signal.signal = lambda *a, **k: None
     devnull = open(os.devnull, "w")
     utils.stdinfo = utils.stdwarn = utils.stderr = devnull
+    utils.getUserName = lambda full=False: _me().user      # what getpwuid would tell the calling logical process
     base = common.scratch_dir("eups-verif-c09.")
     out = []
     try:
         w = World(lock, base)
         w.install()
         for c in cases:
-            w.reset(c["procs"], int(c.get("stacks", 1)))
+            w.reset(c["procs"], int(c.get("stacks", 1)), c.get("junk") or ())
             eff, trace = w.run_schedule(norm_schedule(c["schedule"]), bool(c.get("drain")), drain_limit)
             detail = {str(pid): lp.detail for pid, lp in w.procs.items() if lp.detail}
             w.teardown()
